@@ -484,6 +484,8 @@ def run(ctx):
     r8(ctx)
     r9(ctx)
     r10(ctx)
+    r11(ctx)
+    r12(ctx)
     # the traffic decoder is only as good as the transform layer it routes to: C04's obligations on
     # HttpDataTransform.transform/recover are necessary conditions of C07 as well
     from rules import c04
@@ -1865,6 +1867,271 @@ def r10(ctx):
         _emit(ctx, "R10", "AGREE", f, text_v + suffix, vv, vd + (": a value that itself contains the separator is truncated or the whole header is lost, so a `header` placement of the profile "
                                                                   "whose prepend/append text contains it cannot be recovered" if vv is False else ""), st)
         _emit(ctx, "R10", "AGREE", f, text_k + suffix, kv, kd + (": the name would swallow part of a value that contains the separator" if kv is False else ""), st)
+
+
+# ---------------------------------------------------------------------------- R11: the literal affix is removed by position
+_STRIPS = {"strip": "both ends", "lstrip": "the front", "rstrip": "the end"}
+_EXACT_AFFIX = {"append": "removesuffix", "prepend": "removeprefix"}
+_SEP_CUTS = {"partition": "first", "split": "first", "rpartition": "last", "rsplit": "last"}
+_SEARCHES = ("find", "index", "rfind", "rindex", "translate", "splitlines", "expandtabs", "count", "endswith", "startswith")
+
+
+def _affix_cuts(v, acc, arg, step):
+    """Judge the term `v` recover's accumulator `acc` ends an `append` / `prepend` step with: which methods whose result
+    depends on the *bytes* of the receiver are applied to a term that contains the accumulator.  Result: (problems,
+    unknown, notes) - lists of texts.  Lemmas (documented result shapes of the bytes methods; nothing is stripped or
+    split here):
+      strip-set   x.rstrip(s) / x.lstrip(s) / x.strip(s) remove the longest suffix / prefix / both made of bytes that
+                  OCCUR IN s (s is a set of byte values, not an affix; without s: ASCII whitespace).  The accumulator is
+                  payload + s (s + payload), the payload is an arbitrary byte string and s a free non-empty literal of
+                  the profile, so payloads ending (starting) with a byte of s exist and lose real bytes.
+      affix       (p + s).removesuffix(s) == p and (s + p).removeprefix(s) == p for all p, s.
+      occurrence  in p + s the LAST occurrence of a non-empty s starts at len(p) (no start index is higher), in s + p the
+                  FIRST starts at 0; p may contain s, so the first occurrence in p + s / the last in s + p may lie inside
+                  the payload.  replace(s, r) rewrites every occurrence, replace(s, r, 1) the first."""
+    problems, unknown, notes = [], [], []
+
+    def has_acc(e):
+        return any(isinstance(n, ast.Name) and n.id == acc for n in ast.walk(e))
+
+    def is_arg(e):
+        e = strip_cast(e)
+        if isinstance(e, ast.Call) and dotted(e.func) in ("bytes", "bytearray") and len(e.args) == 1 and not e.keywords:
+            e = e.args[0]
+        return isinstance(e, ast.Name) and e.id == arg
+
+    parent = {id(ch): n for n in ast.walk(v) for ch in ast.iter_child_nodes(n)}
+    for m in ast.walk(v):
+        if not (isinstance(m, ast.Call) and isinstance(m.func, ast.Attribute) and has_acc(m.func.value)):
+            continue
+        name, shown = m.func.attr, src(m)
+        a0 = m.args[0] if m.args else None
+        if name in _STRIPS:
+            if a0 is not None and isinstance(_c(a0), (bytes, str)) and not _c(a0):
+                continue  # strips nothing
+            problems.append(f"{shown} removes from {_STRIPS[name]} every byte that occurs in {src(a0) if a0 is not None else 'the whitespace set'} - a set of byte values, "
+                            f"not the {step}ed literal: a payload whose {'first' if name == 'lstrip' else 'last'} byte is one of them loses real bytes")
+        elif name in _EXACT_AFFIX.values():
+            if a0 is None or m.keywords or len(m.args) != 1 or not is_arg(a0):
+                unknown.append(f"{shown}: not the step argument that is taken off")
+            elif name != _EXACT_AFFIX[step]:
+                problems.append(f"{shown} takes the literal off the other end than the one transform {step}s it to")
+            else:
+                notes.append(f"{shown} takes exactly the literal off")
+        elif name in _SEP_CUTS:
+            par = parent.get(id(m))
+            i = _c(par.slice) if isinstance(par, ast.Subscript) and par.value is m and not isinstance(par.slice, ast.Slice) else None
+            lim = m.args[1] if len(m.args) > 1 else next((k.value for k in m.keywords if k.arg == "maxsplit"), None)
+            if a0 is None or not is_arg(a0) or not isinstance(i, int) or isinstance(i, bool) or any(k.arg != "maxsplit" for k in m.keywords):
+                unknown.append(f"{shown}: a cut at an occurrence of bytes this rule cannot relate to the step argument")
+                continue
+            if name in ("partition", "rpartition"):
+                part = {0: "head", -3: "head", 2: "rest", -1: "rest"}.get(i)
+            elif lim is None:
+                part = "piece"  # an unlimited split cuts at every occurrence: [0] ends at the first one, [-1] starts after the last one
+            elif _c(lim) == 1:
+                part = {0: "head", -2: "head", 1: "rest", -1: "rest"}.get(i)
+            else:
+                part = None
+            want = ("head", "last") if step == "append" else ("rest", "first")
+            if part is None:
+                unknown.append(f"{src(par)}: not a part this rule understands")
+            elif part == "piece":
+                problems.append(f"{src(par)} is cut at every occurrence of the literal; required for {step}: the {'text before' if want[0] == 'head' else 'text after'} the {want[1]} one "
+                                "(the payload may contain the literal)")
+            elif (part, _SEP_CUTS[name]) == want:
+                notes.append(f"{src(par)} cuts at the {want[1]} occurrence, which is the {step}ed literal")
+            else:
+                problems.append(f"{src(par)} is the {'text before' if part == 'head' else 'text after'} the {_SEP_CUTS[name].upper()} occurrence of the literal; required for {step}: "
+                                f"the {'text before' if want[0] == 'head' else 'text after'} the {want[1]} one (the payload may contain the literal / the literal's bytes)")
+        elif name == "replace":
+            cnt = m.args[2] if len(m.args) > 2 else next((k.value for k in m.keywords if k.arg == "count"), None)
+            if a0 is None or not is_arg(a0):
+                unknown.append(f"{shown}: rewrites occurrences of bytes this rule cannot relate to the step argument")
+            elif step == "prepend" and _c(cnt) == 1:
+                notes.append(f"{shown} rewrites the first occurrence, which is the prepended literal")
+            else:
+                problems.append(f"{shown} rewrites {'every' if cnt is None else 'the first'} occurrence of the literal, also those inside the payload")
+        elif name in _SEARCHES:
+            unknown.append(f"{shown}: depends on the payload's bytes; no lemma of this rule covers it")
+    return problems, unknown, notes
+
+
+def r11(ctx):
+    """The inverse of `append <literal>` / `prepend <literal>` removes the literal by position: how many bytes recover
+    takes off the payload in these steps depends on the step argument alone, never on which byte values the (arbitrary)
+    payload happens to end / start with."""
+    R = ctx.repo.func("c2.HttpDataTransform.recover")
+    texts = {s: f"recover {s}: the literal is taken off by position, not by the byte values of the payload" for s in ("append", "prepend")}
+    try:
+        from rules import c04
+
+        side, normal, arg = c04._Side, c04._normal, c04._ARG
+    except Exception as e:  # the path walker of rules.c04 is not importable (module under maintenance)
+        for t in texts.values():
+            ctx.undecided("R11", "AGREE", R, t, f"the step-wise path walker of rules.c04 is not available ({type(e).__name__})")
+        return
+    try:
+        rt = side(ctx, R, "rsteps")
+        why = rt.why
+        if why is None:
+            rt.acc = rt.find_acc()
+            why = None if rt.acc is not None else "the payload accumulator of the step loop is not located"
+        paths = {s: (normal(rt.paths(s)) if why is None else []) for s in texts}
+    except Exception as e:
+        why, paths = f"the step loop could not be walked ({type(e).__name__}: {e})", {s: [] for s in texts}
+    for step, text in texts.items():
+        if why is not None:
+            ctx.undecided("R11", "AGREE", R, text, why)
+            continue
+        ps = [p for p in paths[step] if not p.opaque]
+        if not ps:
+            ctx.undecided("R11", "AGREE", R, text, f"no fully modelled path of recover completes the `{step}` step")
+            continue
+        problems, unknown, notes = [], [], []
+        for p in ps:
+            v = p.env.get(rt.acc)
+            if v is None:
+                continue
+            a, b, c = _affix_cuts(v, rt.acc, arg, step)
+            problems, unknown, notes = problems + a, unknown + b, notes + c
+        if [p for p in paths[step] if p.opaque]:
+            unknown.append("a path of the step is not fully modelled")
+        if problems:
+            ctx.ob("R11", "AGREE", R, text, False, "; ".join(sorted(set(problems))))
+        elif unknown:
+            ctx.undecided("R11", "AGREE", R, text, "; ".join(sorted(set(unknown))))
+        else:
+            ctx.ob("R11", "AGREE", R, text, True, f"payload after the step: {sorted({src(p.env[rt.acc]) for p in ps if rt.acc in p.env})}" + (f" ({'; '.join(sorted(set(notes)))})" if notes else
+                   ": no strip / split / replace / search method is applied to the payload"))
+
+
+# ---------------------------------------------------------------------------- R12: missing session keys are derived
+_SESSION_KEYS = ("aes_key", "hmac_key")
+
+
+def _keys_atom(present):
+    """Leaf evaluator under a *full* assignment of the two flags "the decoder's default <k> is present (a validated
+    16-byte value: truthy, not None) / missing (None)": decides `self.beacon_keys.<k>`, `<that> is [not] None`,
+    `<that> ==/!= None` and `None [not] in (<those>, ..)`; everything else stays unknown."""
+    def key(e):
+        d = dotted(strip_cast(e))
+        if d and d.startswith("self.beacon_keys.") and d.count(".") == 2 and d.split(".")[2] in present:
+            return d.split(".")[2]
+        return None
+
+    def atom(e):
+        k = key(e)
+        if k is not None:
+            return present[k]
+        if isinstance(e, ast.Compare) and len(e.ops) == 1:
+            op, l, r = e.ops[0], e.left, e.comparators[0]
+            if isinstance(op, (ast.Is, ast.IsNot, ast.Eq, ast.NotEq)):
+                for a, b in ((l, r), (r, l)):
+                    if is_none(b) and key(a) is not None:
+                        return (not present[key(a)]) == isinstance(op, (ast.Is, ast.Eq))
+            if isinstance(op, (ast.In, ast.NotIn)) and is_none(l) and isinstance(r, (ast.Tuple, ast.List, ast.Set)) and r.elts and all(key(x) is not None for x in r.elts):
+                return any(not present[key(x)] for x in r.elts) == isinstance(op, ast.In)
+        return None
+
+    return atom
+
+
+def _mentions_keys(e):
+    return any(isinstance(n, ast.Attribute) and n.attr in _SESSION_KEYS + ("beacon_keys",) for n in ast.walk(e))
+
+
+def r12(ctx):
+    """Sufficient key material stays sufficient: once the decoder has freshly RSA-decrypted a check-in's metadata, the
+    session keys are derived from it and stored whenever one of the two default keys is missing - whichever of the two it
+    is (the constructor accepts the private key together with only an AES key or only an HMAC key)."""
+    ir = ctx.repo.func("c2.C2Http.iter_recover_http")
+    cfg = ctx.cfg(ir)
+    fv = FuncView.of(ir.node)
+    text = "a missing session key is derived from freshly decrypted metadata"
+    text_v = "derived keys stored in order (aes_key, hmac_key) from the decrypted metadata's aes_rand"
+    dm = [c for c in fn_calls(ir.node) if _fq(ctx, ir, c) == "c2.decrypt_metadata"]
+    dst = fv.stmt_of(dm[0]) if len(dm) == 1 else None
+    if dst is None or not cfg.has(dst):
+        ctx.undecided("R12", "DOM", ir, text, f"{len(dm)} decrypt_metadata(..) calls located in the decoder (R4 judges that)")
+        return
+    writes = [st for st, _t, attrs in _self_writes(ctx, ir) if "beacon_keys" in attrs and cfg.has(st)]
+    plain = [st for st in writes if isinstance(st, (ast.Assign, ast.AnnAssign)) and st.value is not None
+             and [dotted(t) for t in (st.targets if isinstance(st, ast.Assign) else [st.target])] == ["self.beacon_keys"]]
+    if not writes:
+        ctx.undecided("R12", "DOM", ir, text, "no store of self.beacon_keys located in the decoder (R4 `decoder state stored before the first yield` judges that)")
+        return
+    start = cfg.node(dst)
+    ys = [fv.stmt_of(n) for n in body_walk(ir.node) if isinstance(n, (ast.Yield, ast.YieldFrom))]
+    targets = [cfg.node(y) for y in ys if y is not None and cfg.has(y)] + [EXIT]
+    bad, open_, shown = [], [], []
+    for label, present in (("AES key missing, HMAC key given", {"aes_key": False, "hmac_key": True}), ("AES key given, HMAC key missing", {"aes_key": True, "hmac_key": False}),
+                           ("both missing (private key alone)", {"aes_key": False, "hmac_key": False})):
+        spec = _spec(ctx, ir, _keys_atom(present))
+        if not spec.reaches(ENTRY, start):
+            open_.append(f"[{label}] the metadata is not decrypted at all under a test on the keys")
+            continue
+        leak = [t for t in targets if spec.reaches(start, t, avoiding=[cfg.node(s) for s in writes])]
+        undecided_tests = [st for n, st in cfg.stmt.items() if isinstance(st, (ast.If, ast.While)) and not any(st is x for x in spec.used_tests)
+                           and _mentions_keys(_inl(ir, st.test)) and (n == start or spec.reaches(start, n))]
+        if leak and not undecided_tests:
+            bad.append(f"[{label}] the next message is reached without storing derived keys")
+        elif leak:
+            open_.append(f"[{label}] depends on `{src(undecided_tests[0].test)[:70]}`, which the assumption does not decide")
+        elif [t for t in targets if spec.reaches(start, t, avoiding=[cfg.node(s) for s in plain])]:
+            open_.append(f"[{label}] the keys are stored inside a method call whose own conditions are not followed")
+        else:
+            shown.append(label)
+    verdict = False if bad else None if open_ else True
+    _emit(ctx, "R12", "DOM", ir, text, verdict,
+          ("every path from decrypt_metadata(..) to a yield / the end stores self.beacon_keys under each assumption: " + "; ".join(f"[{x}]" for x in shown)) if verdict else
+          "with the private key and only part of the session keys the decoder must fill in the rest from metadata.aes_rand (the key material is sufficient): " + "; ".join(bad + open_), dm[0])
+
+    # ---- what is stored
+    problems, unknown, good = [], [], []
+    for st in plain:
+        v = _inl(ir, st.value)
+        fq = _fq(ctx, ir, v) if isinstance(v, ast.Call) else None
+        seeds = []
+        if fq == "c2.BeaconKeys":
+            b = _bind(ctx, ir, v)
+            if "**" in b:
+                unknown.append(f"{src(v)[:60]}: fields not visible")
+                continue
+            for i, fld in enumerate(_SESSION_KEYS):
+                x = _inl(ir, b[fld]) if b.get(fld) is not None else None
+                if x is None or is_none(x):
+                    problems.append(f"{fld} is not set by {src(v)[:60]}")
+                elif isinstance(x, ast.Subscript) and isinstance(_c(x.slice), int) and _fq(ctx, ir, x.value) == "c2.derive_aes_hmac_keys":
+                    if _c(x.slice) != i:
+                        problems.append(f"{fld} is given element {_c(x.slice)} of derive_aes_hmac_keys(..) (required: element {i})")
+                    seeds.append(_bind(ctx, ir, x.value, ("aes_random",)).get("aes_random"))
+                else:
+                    unknown.append(f"{fld} = {src(x)[:60]}: not an element of derive_aes_hmac_keys(..)")
+        elif fq == "c2.BeaconKeys.from_aes_rand":
+            seeds.append(_bind(ctx, ir, v, ("aes_rand",)).get("aes_rand"))
+        else:
+            unknown.append(f"self.beacon_keys = {src(v)[:60]}: not BeaconKeys(..) of the derived pair")
+            continue
+        for s in seeds:
+            s = strip_cast(s) if s is not None else None
+            if not (isinstance(s, ast.Attribute) and isinstance(s.value, ast.Name)):
+                unknown.append(f"keys derived from {src(s) if s is not None else None}")
+                continue
+            rd = reaching_defs(ctx, ir, s.value.id, st)
+            fresh = bool(rd) and all(val is not None and strip_cast(val) is dm[0] for _s, val in rd)
+            if not fresh and not (isinstance(_inl(ir, s.value), ast.Call) and src(_inl(ir, s.value)) == src(dm[0])):
+                unknown.append(f"keys derived from {src(s)}: not the result of the decrypt_metadata(..) call on every path")
+            elif s.attr != "aes_rand":
+                problems.append(f"keys derived from {src(s)} (required: the aes_rand field of the decrypted metadata)")
+            else:
+                good.append(src(v)[:60])
+    if problems:
+        ctx.ob("R12", "AGREE", ir, text_v, False, "; ".join(sorted(set(problems + unknown))), plain[0])
+    elif unknown or not plain:
+        ctx.undecided("R12", "AGREE", ir, text_v, "; ".join(sorted(set(unknown))) or "the keys are stored by a method call, not by an assignment in the decoder")
+    else:
+        ctx.ob("R12", "AGREE", ir, text_v, True, f"self.beacon_keys = {sorted(set(good))}", plain[0])
 
 
 def r5(ctx):
